@@ -62,6 +62,7 @@ type Exec struct {
 	escaped       map[*Cell]bool
 	fam           *famEnv
 	famN          int
+	curCallee     *ssa.Function // callee of the library model being applied
 }
 
 func NewExec(prog *ssa.Program, specs map[string]*spec.DB) *Exec {
